@@ -56,7 +56,7 @@ def validate(seed: str):
         # demos written by the sub-agents may name their (now removed) worktree: point them at the scratch tree
         for df in (tmp / 'seeded' / seed).glob('demo.*'):
             txt = df.read_text()
-            for pref in (f'/tmp/r6_{pid}', f'/tmp/w5_{pid}', f'/tmp/w4_{pid}', f'/tmp/w3_{pid}', f'/tmp/w2_{pid}', f'/tmp/wt_{pid}'):
+            for pref in (f'/tmp/r8_{pid}', f'/tmp/r6_{pid}', f'/tmp/w5_{pid}', f'/tmp/w4_{pid}', f'/tmp/w3_{pid}', f'/tmp/w2_{pid}', f'/tmp/wt_{pid}'):
                 txt = txt.replace(pref, str(tmp))
             df.write_text(txt)
         env = dict(os.environ, PYTHONPATH=str(tmp / 'src'), PYTHONDONTWRITEBYTECODE='1')
